@@ -298,7 +298,9 @@ def run_scripts(bins, scripts, work, par, tag):
                 f.write(json.dumps(strip_expect(scripts[i])) + "\n")
         p = subprocess.Popen([bin_path, "run", sp, op], stdout=subprocess.PIPE, stderr=subprocess.STDOUT, text=True)
         procs.append((p, idxs, op))
-    deadline = time.time() + max(load) * 1.6 + 120
+    # every script has its own budget inside retry_sim (a `hang` event is data); the outer deadline only guards against a
+    # driver that is stuck: generous, so that a defect that makes many scripts run to their budgets still yields traces
+    deadline = time.time() + max(load) * 3 + 12 * max(len(b) for b in buckets) + 600
     traces = [None] * len(scripts)
     for p, idxs, op in procs:
         try:
